@@ -8,7 +8,7 @@
 (* followed by g bytes of filler, the whole cut to `cut` bytes.  Filler and signature payload   *)
 (* are pseudo-random and never form a list header with a known type GUID (the harness           *)
 (* cross-checks this assumption with an independent byte-level reader).                         *)
-(* HUGE stands for the field value 0xFFFFFFFF (TLC integers are 32-bit; no arithmetic on it).   *)
+(* HUGE stands for a field value of 2^30 .. 0xFFFFFFFF (TLC integers are 32-bit; no arithmetic). *)
 EXTENDS Integers, Sequences, FiniteSets, TLC
 
 CONSTANTS Supported,    \* signature types the statement counts as handled
